@@ -9,23 +9,30 @@ Open Scope nat_scope.
    get_run_func / get_jacobian_func / run with in_place=False) called on the template r, EVERY template c (of any depth d')
    that had a denotation before — r itself, its sub-circuits, templates sharing nodes or operators with it — has the
    same denotation (equations, defaults, per-node values, connectivity). *)
-Theorem C14_frame_each_operation : forall d r s o d' c t,
-  abs d' (fst s) c = Some t -> abs d' (fst (fst (mstep d r s o))) c = Some t.
+Theorem C14_frame_each_operation : forall fixed d r s o d' c t,
+  abs d' (fst s) c = Some t -> abs d' (fst (fst (mstep_gen fixed d r s o))) c = Some t.
 Proof. exact frame_step. Qed.
 Print Assumptions C14_frame_each_operation.
 
 (* ... and after any finite sequence of them *)
-Theorem C14_frame_any_sequence : forall d r ops s d' c t,
-  abs d' (fst s) c = Some t -> abs d' (fst (fst (mrun d r s ops))) c = Some t.
+Theorem C14_frame_any_sequence : forall fixed d r ops s d' c t,
+  abs d' (fst s) c = Some t -> abs d' (fst (fst (mrun_gen fixed d r s ops))) c = Some t.
 Proof. exact frame_sequence. Qed.
 Print Assumptions C14_frame_any_sequence.
 
 (* Full statement: every operation of every sequence returns what the unchanged denotation says: reads read the tree,
    every compile starts from the declared initial values, every run succeeds from the declared initial values. *)
-Definition C14_full_statement : Prop := forall d r t ops h, abs d h r = Some t ->
-  snd (mrun d r (h, book0) ops) = map (mstepS d t) ops.
+Definition C14_full_statement (fixed : bool) : Prop := forall d r t ops h, abs d h r = Some t ->
+  snd (mrun_gen fixed d r (h, book0) ops) = map (mstepS d t) ops.
 
-(* It holds for sequences in which no call reads bookkeeping written onto `self` by an earlier call
+(* `fixed` = false: the code as it is (mrun = mrun_gen false).  `fixed` = true: the mechanism of the proposed repair
+   /verif/fixes/proposed_fix_C14_state_carry.diff (bookkeeping read from / written to the deep copy).  With the repair the
+   full statement holds for every sequence; this theorem becomes THE claim once Mutation.fixed_state_carry is switched. *)
+Theorem C14_full_when_fixed : C14_full_statement true.
+Proof. exact outputs_refine_fixed. Qed.
+Print Assumptions C14_full_when_fixed.
+
+(* As the code is, it holds for sequences in which no call reads bookkeeping written onto `self` by an earlier call
    (no compile after a run, no run after a compile, all compiles with one vectorize setting). *)
 Theorem C14_partial : forall d r t ops h, abs d h r = Some t -> no_state_carry ops = true ->
   snd (mrun d r (h, book0) ops) = map (mstepS d t) ops.
@@ -52,7 +59,7 @@ Definition w_heap : heap :=
    OCirc [("c1"%string, 3)] []].
 
 (* run(in_place=False) then get_run_func(in_place=False): the compile starts from the final state of the run (silent) *)
-Theorem C14_state_carry_refuted : ~ C14_full_statement.
+Theorem C14_state_carry_refuted : ~ C14_full_statement false.
 Proof.
   intros H. destruct (abs 0 w_heap 3) as [t|] eqn:E; [|vm_compute in E; discriminate].
   specialize (H 0 3 t [MRun false; MCompile false false] w_heap E). vm_compute in H. discriminate.
